@@ -54,7 +54,7 @@ func runRace(e *ev.Env) {
 		failFirst := r.Chance(1, 3)
 		keep := r.Bool()
 		rounds := e.N(40, 150)
-		tag := r.StringFrom("0123456789abcdef", 8)
+		tag := "ab" + r.StringFrom("0123456789abcdef", 6)
 
 		var execCtr atomic.Int64
 		type keyState struct {
@@ -63,6 +63,7 @@ func runRace(e *ev.Env) {
 		}
 		var keys sync.Map // key -> *keyState
 		var keylessRuns atomic.Int64
+		var execKey sync.Map // X-Exec value -> key of the request whose handler run produced it
 
 		cfg := idempotency.Config{}
 		if keep {
@@ -75,7 +76,7 @@ func runRace(e *ev.Env) {
 		app.Use(idempotency.New(cfg))
 		app.All("/", func(c fiber.Ctx) error {
 			n := execCtr.Add(1)
-			key := c.Get(keyHeader)
+			key := strings.Clone(c.Get(keyHeader))
 			c.Set("X-Ran", "1")
 			if key == "" || fiber.IsMethodSafe(c.Method()) {
 				keylessRuns.Add(1)
@@ -91,6 +92,7 @@ func runRace(e *ev.Env) {
 				return fiber.NewError(fiber.StatusServiceUnavailable, "planned handler failure")
 			}
 			s := strconv.FormatInt(n, 10)
+			execKey.Store(s, key)
 			c.Set("X-Exec", s)
 			c.RequestCtx().Response.Header.Add("X-Multi", "a"+s)
 			c.RequestCtx().Response.Header.Add("X-Multi", "b"+s)
@@ -116,7 +118,12 @@ func runRace(e *ev.Env) {
 				go func() {
 					defer wg.Done()
 					<-start
-					key := fmt.Sprintf("%s-%04d-4000-8000-%012d", tag, round, g%raceKeys)
+					// 8 different keys per round; keys 2j and 2j+1 are the same text in lower and
+					// in upper case (the tag starts with letters): different strings, different keys
+					key := fmt.Sprintf("%s-%04d-4000-8000-%012d", tag, round, (g%raceKeys)/2)
+					if (g%raceKeys)%2 == 1 {
+						key = strings.ToUpper(key)
+					}
 					method := []string{"POST", "PUT", "PATCH", "DELETE"}[g%4]
 					reps := 1 + g%2
 					for k := 0; k < reps; k++ {
@@ -179,6 +186,22 @@ func runRace(e *ev.Env) {
 		sort.Strings(ks)
 		contended := 0
 		for _, k := range ks {
+			foreign := false
+			for _, a := range by[k] {
+				if a.errored || a.exec == "" {
+					continue
+				}
+				if owner, ok := execKey.Load(a.exec); ok && owner.(string) != k {
+					foreign = true
+					e.Violation(c, "other-key-affected|answered-from-record-of-another-key|race-stress|"+keyRelation(k, owner.(string)),
+						"a request was answered with the response of an execution that belongs to a different key",
+						map[string]any{"key": k, "owner_key": owner.(string), "exec": a.exec})
+					break
+				}
+			}
+			if foreign {
+				continue
+			}
 			v, ok := keys.Load(k)
 			if !ok {
 				e.Violation(c, "answer-without-execution|race-stress", "key "+k+" answered but the handler never ran for it", nil)
